@@ -102,6 +102,8 @@ pub fn enumerate(p: &Plan, f: &mut dyn FnMut(u64, &'static str, &[u8])) -> u64 {
         f(base, "V", &c);
         base += 1;
     }
+    let n0 = base;
+    base += spaces::space_n(p.w_full, &mut |i, c| f(n0 + i, "N", c));
     for (_, c) in spaces::space_k() {
         f(base, "K", &c);
         base += 1;
@@ -303,7 +305,9 @@ pub fn info(tier: Tier, prop: &'static str, backend: Backend) -> CheckInfo {
              <= {} statements inside 4 loop shapes, 3 initialisations){}, W (k-cell rotations with per-cell forms copy/x2/x3/negate/ \
              shared/shared+const/+const/div3/product/wide constant: default, every single deviation, uniform and alternating \
              assignments{}), V (an input byte shifted left by 4k bits, k up to 16, used as loop/branch condition; optimising \
-             configurations only, accelerated reference) and the repository corpus K. For each program and width the input choice tree \
+             configurations only, accelerated reference), N (a loop whose body is every sequence of <= 5 tokens from moves, scans \
+             [>] [<], stationary loops [] [-], + and . that contains a scan, 3 prefixes, with and without a final output) and the \
+             repository corpus K. For each program and width the input choice tree \
              is explored on demand (alphabet {{0,1,2,128,255}} then end of input, depth {}; depth {} for S; fixed scripts of distinct \
              non-zero bytes for W, V, R and K). Every node whose canonical run halts within {} steps is executed on backend `{}` at \
              levels {:?} through execute_limited (screen, 4*steps+64) and then execute; the shared I/O log is compared action by action \
